@@ -37,6 +37,11 @@ func NewNTTFriendlyPrimesGenerator(BitSize, NthRoot uint64) NTTFriendlyPrimesGen
 		CheckPrevPrime = false
 	}
 
+	// a zero step never moves the candidates: nothing can be generated
+	if NthRoot == 0 {
+		CheckNextPrime, CheckPrevPrime = false, false
+	}
+
 	PrevPrime -= NthRoot
 
 	return NTTFriendlyPrimesGenerator{
@@ -96,6 +101,10 @@ func (n *NTTFriendlyPrimesGenerator) NextUpstreamPrime() (uint64, error) {
 	CheckNextPrime := n.CheckNextPrime
 	Size := n.Size
 
+	if !CheckNextPrime {
+		return 0, fmt.Errorf("cannot NextUpstreamPrime: prime list for upstream primes is exhausted")
+	}
+
 	for {
 		if CheckNextPrime {
 
@@ -130,6 +139,10 @@ func (n *NTTFriendlyPrimesGenerator) NextDownstreamPrime() (uint64, error) {
 	NthRoot := n.NthRoot
 	CheckPrevPrime := n.CheckPrevPrime
 	Size := n.Size
+
+	if !CheckPrevPrime {
+		return 0, fmt.Errorf("cannot NextDownstreamPrime: prime list for downstream primes is exhausted")
+	}
 
 	for {
 
